@@ -22,7 +22,7 @@ RULE = ("cases from rng(seed, 15, 0, i): a cluster graph (all pose types, parall
         "20..50 calls drawn from " + ", ".join(QUERIES) + " plus optimize(max_iter 1..3); snapshot compared around each call. distinct = fingerprint(spec, history); "
         "non-trivial = history with >= 1 numerical-Jacobian call on an SE(2)/SE(3) vertex and >= 1 optimize run.")
 REQ = ["eval:query-leaves-state-unchanged", "eval:repeat-returns-identical", "eval:optimize-changes-only-poses", "eval:operands-unchanged", "eval:copy-independent"] + ["query:" + q for q in QUERIES] + [
-    "class:numerical_jacobian_on_SE_vertex", "class:parallel_edges", "class:no_fixed_vertex_prior_anchored", "class:graph_loaded_from_g2o"]
+    "class:numerical_jacobian_on_SE_vertex", "class:parallel_edges", "class:no_fixed_vertex_prior_anchored", "class:graph_loaded_from_g2o", "class:shared_pose_storage", "class:estimate_object_reused_as_initial_pose"]
 PLAN = {
     "quick": {"cases": 480, "soft_s": 80, "min_nontrivial": 150, "require": REQ},
     "thorough": {"cases": 24000, "soft_s": 1400, "min_nontrivial": 6000, "require": REQ},
@@ -204,7 +204,9 @@ def do_query(q, g, g_other, rng, scratch):
 
 def run_case(ctx, i, rng):
     nofix = bool(i % 5 == 0)
-    spec, labels = gen.cluster_graph(rng, size=(2, 5), numeric_custom=True if i % 2 else None, fix_mode=("none_prior" if nofix else None))
+    spec, labels = gen.cluster_graph(rng, size=(2, 5), numeric_custom=True if i % 2 else None, fix_mode=("none_prior" if nofix else None), alias=bool(rng.random() < 0.35))
+    if "shared_pose_storage" in labels:
+        ctx.count("class:shared_pose_storage")
     if nofix:
         ctx.count("class:no_fixed_vertex_prior_anchored")
     g = M.build(spec)
@@ -218,8 +220,12 @@ def run_case(ctx, i, rng):
             d0 = tempfile.mkdtemp(prefix="c15-", dir=os.environ.get("VF_SCRATCH"))
             try:
                 pth = os.path.join(d0, "g.g2o")
-                M.build(lspec).to_g2o(pth)
-                g, g_other = M.Graph.from_g2o(pth), M.Graph.from_g2o(pth)
+                if rng.random() < 0.5:
+                    M.build(lspec).to_g2o(pth)
+                    g, g_other = M.Graph.from_g2o(pth), M.Graph.from_g2o(pth)
+                else:
+                    # the same structure built in memory (parameters registered, offsets shared with them), never exported before the history starts
+                    g, g_other = M.build(lspec), M.build(lspec)
                 spec = lspec
                 labels = set()
                 ctx.count("class:graph_loaded_from_g2o")
@@ -227,6 +233,13 @@ def run_case(ctx, i, rng):
                 shutil.rmtree(d0, ignore_errors=True)
     if "parallel_edges" in labels:
         ctx.count("class:parallel_edges")
+    if i % 4 != 1 and rng.random() < 0.3:
+        # one more way client code shares objects: a measurement object that is also a vertex's initial pose object
+        for e in g._edges:
+            if isinstance(e, M.EdgeOdometry) and type(e.estimate) is type(e.vertices[1].pose) and not e.vertices[1].fixed:
+                e.vertices[1].pose = e.estimate
+                ctx.count("class:estimate_object_reused_as_initial_pose")
+                break
     L = int(rng.integers(20, 51))
     scratch = tempfile.mkdtemp(prefix="c15-", dir=os.environ.get("VF_SCRATCH"))
     hist = []
